@@ -12,6 +12,8 @@ Steps after the first round:
   remove      a non-empty proper subset of the members leaves
   add         1..2 brand-new members (no user data) join
   partitions  partition counts / metadata presence of some topics change (validity only)
+  return      the members that left in earlier steps come back with the user data they left with (validity only;
+              under generation mode "positive" their claims conflict with the current owners' newer ones)
 
 Oracle clauses (predicates over two consecutive decoded results):
   idempotent      same -> result equals the previous result, member by member
@@ -105,10 +107,19 @@ def run_chain(gen, layout, members, steps, memo_key=None):
     if result is None:
         return out
     nsteps = 0
+    gone = []        # members that left and may come back with the (stale) state they left with
     for k, step in enumerate(steps, 1):
         kind = step[0]
         prev_members, prev_result, prev_layout = members, result, layout
-        if kind == "remove":
+        if kind == "return":
+            back = [mt for mt in gone if not any(mt[0] == m for m, _ in members)]
+            if not back:
+                out.label("step_skipped")
+                continue
+            gone = []
+            members = sorted(members + back, key=lambda mt: mt[0])
+            out.label("round:return_with_stale_claims")
+        elif kind == "remove":
             n = len(members)
             if n < 2:
                 out.label("step_skipped")
@@ -119,6 +130,7 @@ def run_chain(gen, layout, members, steps, memo_key=None):
                 continue
             if len(who) == n:
                 who.pop()
+            gone += [mt for i, mt in enumerate(members) if i in who]
             members = [mt for i, mt in enumerate(members) if i not in who]
         elif kind == "add":
             new = []
@@ -261,6 +273,7 @@ def _strat_chain():
         newsub = st.just("same") if identical and draw(st.integers(0, 4)) else st.one_of(st.just("same"), sub)
         step = st.one_of(
             st.just(["same"]),
+            st.just(["return"]),
             st.tuples(st.just("remove"), st.lists(st.integers(0, 11), min_size=1, max_size=4)),
             st.tuples(st.just("add"), st.lists(st.tuples(st.sampled_from(["a", "n", "zz", "m1"]), newsub),
                                                 min_size=1, max_size=2)),
@@ -286,6 +299,8 @@ def exec_chain(case):
             steps.append(("add", specs))
         elif s[0] in ("remove", "partitions"):
             steps.append((s[0], s[1]))
+        elif s[0] == "return":
+            steps.append(("return",))
         else:
             steps.append(("same",))
     return run_chain(case["gen"], case["first"]["topics"], case["first"]["members"], steps)
@@ -293,7 +308,7 @@ def exec_chain(case):
 
 # ---------------------------------------------------------------- enumerated deeper chains, identical subscriptions
 
-_ID_STEPS = (["same"], ["add", [["a", "same"]]], ["add", [["zz", "same"]]], ["remove", [0]], ["remove", [-1]])
+_ID_STEPS = (["same"], ["add", [["a", "same"]]], ["add", [["zz", "same"]]], ["remove", [0]], ["remove", [-1]], ["return"])
 
 
 def _identical_chain_cases(shard, nshards, max_parts, max_len):
